@@ -269,6 +269,15 @@ def runLifeCase (ts : List String) : String :=
   if !inDomain then "out-of-domain" else
   String.intercalate " " (lifeRun cfg {} acts)
 
+def fnvAdd (h : UInt64) (bs : Bytes) : UInt64 := bs.foldl (fun h b => (h ^^^ b.toUInt64) * 1099511628211) h
+
+/-- what matters of one serialization: its first 24 bytes, its length (decimal), its last two bytes -/
+def enclenDigest (h : UInt64) (b : Bytes) : UInt64 :=
+  let n := b.length
+  let h := fnvAdd h (b.take 24)
+  let h := fnvAdd h (toString n).toUTF8.toList
+  if n ≥ 2 then fnvAdd h (b.drop (n - 2)) else h
+
 def handleLine (toks : List String) : String :=
   match toks with
   | "enc" :: ts =>
@@ -277,6 +286,17 @@ def handleLine (toks : List String) : String :=
       | some b => hex b
       | none => "panic"
     | none => "bad-case"
+  | ["enclen", lo, hi] =>
+    match lo.toNat?, hi.toNat? with
+    | some lo, some hi =>
+      let digest := (List.range (hi - lo)).foldl (fun h k =>
+        let n := lo + k
+        let p : Bytes := (List.range n).map fun i => UInt8.ofNat ((i * 7 + n) % 256)
+        let b := enc (.bulk (some p))
+        let ab := enc (.arr [.bulk (some p), .line .int b!"7"])
+        enclenDigest (enclenDigest h b) ab) (14695981039346656037 : UInt64)
+      s!"digest={hex16 digest}"
+    | _, _ => "bad-case"
   | "rt" :: ts =>
     match parseMsgToks ts with
     | some (m, _) =>
@@ -362,6 +382,7 @@ def handleLine (toks : List String) : String :=
   | "ctor" :: "strs" :: hs => s!"enc={hex (enc (.arr (hs.map fun h => .bulk (some (unhex h)))))}"
   | ["ctor", "float", _, fmt] => s!"enc={hex (enc (.bulk (some (unhex fmt))))} fmt={fmt}"
   | _ => "bad-op"
+
 
 partial def loop (h : IO.FS.Stream) (out : IO.FS.Stream) : IO Unit := do
   let line ← h.getLine
